@@ -144,8 +144,8 @@ def describe(tier, seed):
     return {'rule': 'PopulationTemplate(n) x Connectivity circuits: n in 1..3 (4), one or two populations, every weight matrix '
                     'over {0, a, -b} for <=2x2 and all matrices with <=3 non-zeros otherwise (non-square, signed, sparse), '
                     'scalar weights, heterogeneous per-unit parameters and initial states (all distinct), algebraic and '
-                    'dynamic coupling edges (also two connections whose edges share the equations but not the values), delays '
-                    'with/without spread (whole and fractional multiples of the step); oracle: unit-by-unit reference expansion '
+                    'dynamic coupling edges (with and without edge constants; also two connections whose edges share the equations but not the values), delays '
+                    'with/without spread (whole and fractional multiples of the step), two parallel connections between one pair of variables, scalar entries in params; oracle: unit-by-unit reference expansion '
                     'target_i += sum_j W[i,j]*source_j (vector field at probe points + euler trajectories) and, for plain '
                     'weights, the circuit of n separately declared nodes built with add_edges_from_matrix',
             'bounds': {'n': 3 if tier == 'quick' else 4}}
